@@ -131,6 +131,13 @@ Apply(sc, s, e) == [c |-> e.c, z |-> e.z, st |-> e.st]
 SceneOK(sc) ==
   \A t \in 1..Len(sc.fp) : \A p \in 1..sc.np : (sc.fp[t][p] # -1) <=> (sc.cover[t][p] = 1)
 
+\* ---------------------------------------------------------------- very large calls
+\* e.planes = <<a, b, c, d>>, each <<colour plane, depth plane>>: (a) the scene alone, (b)-(d) the scene
+\* plus tens of thousands of triangles that cover no pixel centre, in one call, under sort none /
+\* front-to-back / back-to-front (depth test Less, writes on).  The padding draws nothing and the sort
+\* setting does not matter: all four are equal.
+BigCallAllowed(e) == e.panic = 0 /\ \A i \in 2..4 : e.planes[i] = e.planes[1]
+
 \* ---------------------------------------------------------------- theorems
 \* checked by MC_Target on the specification itself
 
